@@ -217,3 +217,59 @@ def r6_data_deps(ctx):
 
 
 RULES = [r1_registration, r2_killgen, r3_boundary, r4_dead, r5_crawler_visits, r6_data_deps]
+
+
+def r7_accumulate(ctx):
+    ctx.rule("C18.r7", "kill/gen fixpoint: when the new fact is not included in the stored one, the stored fact becomes merge(new, old) - "
+             "facts are never dropped between sweeps (the assertion crawler's transfer function registers an assertion only on its first "
+             "visit, so it is not idempotent across sweeps)", floor=2)
+    for name, mp in (("run_fwd_fixpo", "m_out_map"), ("run_bwd_fixpo", "m_in_map")):
+        fs = ctx.db.fns(KG, name=name)
+        if not ctx.need(fs, "killgen " + name):
+            continue
+        for fn in fs:
+            body = fn["body"]
+            d = local_decls(body)
+            g = paths.guards(body)
+            found = False
+            for a in walk(body):
+                if not (a.get("k") == "call" and a.get("op") == "=" and "o" in a and a.get("a")):
+                    continue
+                L = strip(a["o"])
+                if not (isinstance(L, dict) and L.get("k") == "call" and L.get("op") == "[]" and is_field(L.get("o"), mp)):
+                    continue
+                # the guard  !(NEW <= OLD)
+                new = old = None
+                for c, p in g.get(id(a), ()):
+                    if isinstance(c, tuple):
+                        continue
+                    cc, pol = strip(c), p
+                    while isinstance(cc, dict) and ((cc.get("k") == "un" and cc.get("op") == "!") or
+                                                    (cc.get("k") == "call" and cc.get("op") == "!" and "o" in cc and not cc.get("a"))):
+                        cc = strip(cc.get("e") if cc.get("k") == "un" else cc.get("o"))
+                        pol = not pol
+                    pp = cmp_parts(cc)
+                    if pp and pp[0] == "<=" and not pol:
+                        new, old = strip(pp[1]), strip(pp[2])
+                if new is None:
+                    continue
+                found = True
+                R = strip_move(a["a"][0])
+                okm = is_call(R, name="merge") and len(R.get("a", [])) == 2 and \
+                    ((same_expr(strip(R["a"][0]), new) and same_expr(strip(R["a"][1]), old)) or
+                     (same_expr(strip(R["a"][0]), old) and same_expr(strip(R["a"][1]), new)))
+                # old must be the previously stored value of the same entry
+                ro = resolve_local(body, old, d)
+                okold = isinstance(strip(ro), dict) and strip(ro).get("op") == "[]" and is_field(strip(ro).get("o"), mp)
+                if okm and okold:
+                    ctx.ok("%s: %s = merge(%s, %s)" % (name, src(L)[:30], src(new), src(old)), fn, a)
+                else:
+                    ctx.bad("%s stores `%s` when the new fact is not included in the old one; it must store merge(%s, %s): otherwise facts "
+                            "found in an earlier sweep are forgotten (the assertion crawler adds an assertion's own operands only the first "
+                            "time it visits the assertion) and a non-monotone transfer function may oscillate" %
+                            (name, src(R)[:50], src(new), src(old)), fn, a, sig="killgen-no-accumulate:%s" % name)
+            if not found:
+                ctx.undecided("%s: cannot find the guarded update of %s" % (name, mp), fn, body)
+
+
+RULES += [r7_accumulate]
